@@ -226,7 +226,7 @@ def run(tier, seed, replay):
     st = dict(stats)
     for k, v in stats2.items():
         st['stress_' + k] = v
-    cov = {'evaluations': stats['cases'] + stats2['cases'] + len(rcases), 'distinct_nontrivial': stats['cases'] + stats2['cases'],
+    cov = {'evaluations': stats['cases'] + stats2['cases'] + len(rcases), 'distinct_nontrivial': stats['distinct_cases'] + stats2['distinct_cases'], 'nontrivial_rule': 'distinct histories (operation scripts) with at least one write',
            'rule': 'general sequential histories (fresh and independently built images) and allocator-stress histories (fill, scattered discards, multi-cluster writes; refblock slices of 512 bytes so that runs cross slice boundaries; refcount widths 8..64 bit) replayed through the extracted device model with the library\'s own allocation choices; file refcounts compared with the model at every flush; write/discard cycles over a fixed working set for the reuse bound',
            'samples': [], 'model_steps': stats['model_steps'] + stats2['model_steps'], 'allocator_scan_queries': nscan, 'distribution': st, 'findings_by_class': dict(seen)}
     return common.finish('C08', tier, seed, 'proof', gate, cov, t, violations, known,
